@@ -3,7 +3,7 @@
    handler invocation with nesting depth, stop(), generator return, raise, flush() entry. *)
 
 
-From Coq Require Import List ZArith Arith.
+From Coq Require Import List ZArith Arith Bool.
 From Circ Require Import Lib.Obs Model.DispatchOrder.
 Import ListNotations.
 
@@ -60,3 +60,83 @@ Definition ord_all (c : nat) (tbl : list (nat * list handlerZ)) : list (nat * na
   map (fun r => (fst r, c, map hid (snd r))) tbl.
 Definition runZ1 (tbl : list (nat * list handlerZ)) (fuel : nat) (prog : list (act Z)) : state Z :=
   runZ tbl (ord_all 0 tbl) fuel prog.
+
+(* ---- large bursts (C02: "any number of events").  The program is described compactly and expanded inside
+   Coq: event i (i = 0 .. n-1, all on channel 0) has priority cyc[i mod |cyc|] and name 0 ("job"), except that
+   the positions listed in [marks] carry a "mark" event (name 1) with the given priority, and, if [urgent] is
+   given, event 0 is a "head" event (name 3) whose handler fires an "urgent" event (name 2) with that priority.
+   Then [flushes] flush() calls.  The machine that runs it is the one the theorems are about ([runZ]). *)
+Fixpoint find_mark (i : Z) (marks : list (Z * Z)) : option Z :=
+  match marks with
+  | [] => None
+  | (p, k) :: r => if Z.eqb p i then Some k else find_mark i r
+  end.
+Definition burst_event (cyc : list Z) (marks : list (Z * Z)) (head : bool) (i : nat) : act Z :=
+  let z := Z.of_nat i in
+  match find_mark z marks with
+  | Some k => AFire 1 k MNormal [0]
+  | None => AFire (if head && Nat.eqb i 0 then 3 else 0) (nth (i mod (length cyc)) cyc 0%Z) MNormal [0]
+  end.
+Definition burst_prog (n : N) (cyc : list Z) (marks : list (Z * Z)) (urgent : option Z) (flushes : nat) : list (act Z) :=
+  map (burst_event cyc marks (match urgent with Some _ => true | None => false end)) (seq 0 (N.to_nat n))
+  ++ repeat AFlush flushes.
+Definition burst_tbl (urgent : option Z) : list (nat * list handlerZ) :=
+  [(0, [Build_handler 0 0%Z []]); (1, [Build_handler 1 0%Z []]); (2, [Build_handler 2 0%Z []]);
+   (3, [Build_handler 3 0%Z (match urgent with Some k => [AFire 2 k MNormal [0]] | None => [] end)])].
+
+(* digest of a dispatch order: maximal runs of equal priority whose ids form an arithmetic progression,
+   as (priority, first id, step, count) *)
+Definition run4 := (Z * Z * Z * Z)%type.
+Fixpoint digest_go (cur : option run4) (l : list (Z * Z)) : list run4 :=
+  match l with
+  | [] => match cur with Some r => [r] | None => [] end
+  | (k, i) :: t =>
+      match cur with
+      | None => digest_go (Some (k, i, 0, 1)%Z) t
+      | Some (ck, f, st, c) =>
+          if Z.eqb k ck && (Z.eqb c 1 || Z.eqb i (f + st * c))
+          then digest_go (Some (ck, f, (if Z.eqb c 1 then i - f else st), c + 1)%Z) t
+          else (ck, f, st, c) :: digest_go (Some (k, i, 0, 1)%Z) t
+      end
+  end.
+Definition enc_run (r : run4) : T :=
+  match r with (k, f, st, c) => Tl [Tn k; Tn f; Tn st; Tn c] end.
+(* number of dispatches done when each flush() returns *)
+Fixpoint pass_counts (acc : Z) (t : list (tr Z)) : list T :=
+  match t with
+  | [] => []
+  | TDisp _ :: r => pass_counts (acc + 1) r
+  | TFlushE :: r => Tn acc :: pass_counts acc r
+  | _ :: r => pass_counts acc r
+  end.
+Definition obs_burst (n : N) (cyc : list Z) (marks : list (Z * Z)) (urgent : option Z) (flushes : nat) (fuel : N) : T :=
+  let tbl := burst_tbl urgent in
+  let s := runZ tbl (ord_all 0 tbl) (N.to_nat fuel) (burst_prog n cyc marks urgent flushes) in
+  Tl [ Tl (map enc_run (digest_go None (map (fun x => (ikey x, Z.of_nat (ictr x))) (disps (trace s)))));
+       Tl (pass_counts 0 (trace s));
+       Tl [Tbool (crashed s); Tnat (length (stack s)); Tnat (length (fifo s) + length (heap s))] ].
+
+(* the same observable computed from the specification instead of by running the machine: pass 1 dispatches
+   [bucket ks] of the burst (C02_pass_exact: that IS what the machine dispatches), the urgent event fired by the
+   head's handler during pass 1 waits for pass 2 (C02_no_overtake).  Used for bursts of thousands of events, where
+   the machine (unary counters, trace appends) is too slow to run; for small bursts both are compared
+   (Props/C02.v C02_ex_burst_machine_vs_spec and the small burst cases of the correspondence).  Needs flushes >= 2. *)
+Fixpoint zins (k : Z) (l : list Z) : list Z :=
+  match l with
+  | [] => [k]
+  | x :: r => if (k <? x)%Z then k :: l else if (k =? x)%Z then l else x :: zins k r
+  end.
+Definition item_of (a : act Z) (i : nat) : list (item Z) :=
+  match a with AFire n k md cs => [Build_item k i n md cs] | _ => [] end.
+Definition burst_items (n : N) (cyc : list Z) (marks : list (Z * Z)) (head : bool) : list (item Z) :=
+  flat_map (fun i => item_of (burst_event cyc marks head i) i) (seq 0 (N.to_nat n)).
+Definition obs_burst_spec (n : N) (cyc : list Z) (marks : list (Z * Z)) (urgent : option Z) (flushes : nat) : T :=
+  let head := match urgent with Some _ => true | None => false end in
+  let ks := fold_right zins [] (cyc ++ map snd marks) in
+  let pass1 := bucket Z.leb ks (burst_items n cyc marks head) in
+  let pass2 := match urgent with Some k => [Build_item k (N.to_nat n) 2 MNormal [0]] | None => [] end in
+  let c1 := Z.of_N n in
+  let c2 := (c1 + Z.of_nat (length pass2))%Z in
+  Tl [ Tl (map enc_run (digest_go None (map (fun x => (ikey x, Z.of_nat (ictr x))) (pass1 ++ pass2))));
+       Tl (match flushes with 0%nat => [] | S f => Tn c1 :: repeat (Tn c2) f end);
+       Tl [Tn 0; Tn 0; Tn 0] ].
